@@ -194,6 +194,19 @@ func instrument(fset *token.FileSet, f *ast.File, info *types.Info, rel string, 
 			c.Replace(&ast.ExprStmt{X: call(fn, s.Chan, s.Value)})
 			st.Sends++
 			changed = true
+		case *ast.ExprStmt:
+			// close(ch) inside a go-literal (also when deferred, see DeferStmt)
+			if call2, ok := s.X.(*ast.CallExpr); ok && inGo > 0 {
+				if id, ok := call2.Fun.(*ast.Ident); ok && id.Name == "close" && len(call2.Args) == 1 {
+					c.Replace(&ast.ExprStmt{X: call("CloseSpawned", call2.Args[0])})
+					changed = true
+				}
+			}
+		case *ast.DeferStmt:
+			if id, ok := s.Call.Fun.(*ast.Ident); ok && inGo > 0 && id.Name == "close" && len(s.Call.Args) == 1 {
+				s.Call = call("CloseSpawned", s.Call.Args[0])
+				changed = true
+			}
 		case *ast.ForStmt:
 			stmts := []ast.Stmt{tick()}
 			if inRun > 0 && inGo == 0 {
